@@ -785,7 +785,11 @@ pub fn c03(ctx: &mut Ctx) -> String {
         if i < 2 {
             sample_case(ctx, &t, fam, &cfg);
         }
-        let mut case = solve_case(&t, &cfg, &["rate"]);
+        // the envelope is loose by design; what the rate theorems are about is the model's run, so
+        // short runs are also compared with it (every thread count: the model's single-threaded
+        // run is what C06 proves the multi-threaded one equal to)
+        let asserts: &[&str] = if iters <= 30 && t.size() <= 150 { &["rate", "corr"] } else { &["rate"] };
+        let mut case = solve_case(&t, &cfg, asserts);
         case["collect"] = json!(format!("T{}", iters));
         case_solve(ctx, &case);
     }
@@ -870,16 +874,19 @@ pub fn c04(ctx: &mut Ctx) -> String {
     // repeated matrix games: a player's sampled tree is wide at every level, so with several
     // threads the per-pass frontier is really handed to the pool (`Game::solve` picks the task
     // target itself: three per thread)
-    for i in 0..(if ctx.thorough { 60u64 } else { 12 }) {
+    for i in 0..(if ctx.thorough { 90u64 } else { 18 }) {
         if ctx.out_of_time() {
             break;
         }
         let (ra, rr) = [(3u32, 2u32), (4, 2), (2, 3), (3, 2)][((i / 4) % 4) as usize];
-        let t = repeated_matrix(&mut ctx.rng, ra, rr);
+        // every third case: one player moves twice in a row at the top (her reach at the frontier is
+        // a product of two of her own probabilities), then a blind opponent
+        let twice = i % 3 == 2;
+        let t = if twice { double_decision(&mut ctx.rng) } else { repeated_matrix(&mut ctx.rng, ra, rr) };
         if t.size() > 400 {
             continue;
         }
-        let method = if i % 4 == 3 { "S" } else { "E" };
+        let method = if i % 4 == 3 || twice { "S" } else { "E" };
         let (_, params) = Params::presets()[((i / 2) % 5) as usize];
         let seed = ctx.rng.next() >> 12;
         let threads = [2usize, 3, 4, 2][(i % 4) as usize];
@@ -1177,7 +1184,25 @@ pub fn c09(ctx: &mut Ctx) -> String {
         let asserts: &[&str] = if threads == 1 { &["prefix", "corr"] } else { &["prefix"] };
         case_solve(ctx, &solve_case(&t, &cfg, asserts));
     }
-    "all three methods (sampled ones under the keyed draw hook) x games x presets and custom tuples x budgets 2..10 (quick) / 2..16 (thorough) x thresholds {0, -1, NaN, +inf, a bound value b occurring along the run, its two float neighbours, 1.5 b, 0.7 b} x threads {1, 2, 4}: the run with the threshold against the run with budget t* and no threshold (bit-exact for one thread); single-threaded cases also against the model".to_string()
+    // the smallest budgets, every thread count: "the budget is never exceeded" includes a budget
+    // of zero (no iteration: infinite bounds, the initial uniform profile) and of one
+    for i in 0..(if ctx.thorough { 240u64 } else { 36 }) {
+        if ctx.out_of_time() {
+            break;
+        }
+        let (t, fam) = small_game(ctx, i, 120);
+        ctx.stat(&format!("family_{}", fam));
+        let method = ["F", "S", "E"][(i % 3) as usize];
+        let (_, params) = Params::pick(&mut ctx.rng);
+        let budget = (i / 3) % 2;
+        let threads = [1usize, 2, 3, 4][((i / 6) % 4) as usize];
+        let thr = *ctx.rng.pick(&[0.0, -1.0, f64::NAN, INF, 1e-3]);
+        let seed = ctx.rng.next() >> 12;
+        ctx.stat(&format!("budget_{}", budget));
+        let cfg = Cfg { method: method.into(), params, iters: budget, thr, threads, target: None, seed };
+        case_solve(ctx, &solve_case(&t, &cfg, &["prefix", "wellformed", "corr"]));
+    }
+    "all three methods (sampled ones under the keyed draw hook) x games x presets and custom tuples x budgets {0, 1} x threads {1, 2, 3, 4} and budgets 2..10 (quick) / 2..16 (thorough) x thresholds {0, -1, NaN, +inf, a bound value b occurring along the run, its two float neighbours, 1.5 b, 0.7 b} x threads {1, 2, 4}: the run with the threshold against the run with budget t* and no threshold (bit-exact for one thread); single-threaded cases also against the model".to_string()
 }
 
 // ---------------------------------------------------------------------------------------------
@@ -1404,7 +1429,14 @@ pub fn case_meta(ctx: &mut Ctx, case: &Value) {
     let (u1, u2) = (i1.player_utility(PlayerNum::One), i2.player_utility(PlayerNum::One));
     let r1 = [i1.player_regret(PlayerNum::One), i1.player_regret(PlayerNum::Two)];
     let r2 = [i2.player_regret(PlayerNum::One), i2.player_regret(PlayerNum::Two)];
-    let tol = 1e-9 * sc;
+    // numbers of the transformed game are compared at the transformed game's own scale
+    let sc2 = {
+        let mut v = Vec::new();
+        t2.payoffs(&mut v);
+        v.iter().fold(0.0f64, |a, b| a.max(b.abs()))
+    };
+    let sc2 = if what == "scale" && sc2 > 0.0 { sc2 } else { sc };
+    let tol = 1e-9 * sc2;
     let (wu, wr) = match what {
         "scale" => (u1 * c, [r1[0] * c, r1[1] * c]),
         "shift" => (u1 + c, r1),
@@ -1427,7 +1459,7 @@ pub fn case_meta(ctx: &mut Ctx, case: &Value) {
                 "swap" => [a.bounds[1], a.bounds[0]],
                 _ => a.bounds,
             };
-            if !(d <= 1e-8) || !bounds_close(&wb, &b.bounds, 1e-9 * sc) {
+            if !(d <= 1e-8) || !bounds_close(&wb, &b.bounds, 1e-9 * sc2) {
                 let mut c1 = cfg.clone();
                 c1.threads = 1;
                 let margin = model_margin(ctx, &t, &c1).min(model_margin(ctx, &t2, &c1));
@@ -1460,7 +1492,8 @@ pub fn c12(ctx: &mut Ctx) -> String {
         ctx.stat(&format!("family_{}", fam));
         let what = kinds[(i % 6) as usize];
         let c = match what {
-            "scale" => *ctx.rng.pick(&[0.5, 2.0, 8.0, 3.0, 0.1, 1e-3, 1e3]),
+            // (exact powers of two far from one: nothing in the algorithm may depend on the unit)
+            "scale" => *ctx.rng.pick(&[0.5, 2.0, 8.0, 3.0, 0.1, 1e-3, 1e3, 2f64.powi(-70), 2f64.powi(-70), 2f64.powi(60), 2f64.powi(-200)]),
             "shift" => *ctx.rng.pick(&[1.0, -4.0, 0.5, 100.0, 0.3]),
             _ => *ctx.rng.pick(&[0.25, 2.0, 8.0]),
         };
